@@ -33,7 +33,8 @@ pub enum Seed {
     LongNamespaceRecords { namespaces: u16, uri_len: u32, records: u32 },
     /// hand-built file without point clouds whose file GUID (a String element) is written as `pieces` pieces of
     /// character data: alternately an empty CDATA section and `piece_len` characters of plain text (`kind` 0), or CDATA
-    /// sections separated by a carriage return reference as the crate's own writer splits strings (`kind` 1)
+    /// sections separated by a carriage return reference as the crate's own writer splits strings (`kind` 1); `kind` 2 is
+    /// `kind` 0 followed by a comment that contains a CR LF line end
     SplitText { pieces: u32, piece_len: u16, kind: u8 },
 }
 
@@ -57,7 +58,7 @@ pub fn split_text_file(pieces: usize, piece_len: usize, kind: u8) -> Vec<u8> {
     let mut xml = String::from("<?xml version=\"1.0\" encoding=\"UTF-8\"?>\n<e57Root type=\"Structure\" xmlns=\"http://www.astm.org/COMMIT/E57/2010-e57-v1.0\">\n<formatName type=\"String\"><![CDATA[ASTM E57 3D Imaging Data File]]></formatName>\n<guid type=\"String\">");
     let plain = "x".repeat(piece_len);
     for _ in 0..pieces {
-        if kind % 2 == 0 {
+        if kind != 1 {
             xml.push_str("<![CDATA[]]>");
             xml.push_str(&plain);
         } else {
@@ -66,7 +67,13 @@ pub fn split_text_file(pieces: usize, piece_len: usize, kind: u8) -> Vec<u8> {
             xml.push_str("]]>&#13;");
         }
     }
-    xml.push_str("</guid>\n<versionMajor type=\"Integer\">1</versionMajor>\n<versionMinor type=\"Integer\">0</versionMinor>\n<data3D type=\"Vector\" allowHeterogeneousChildren=\"1\"/>\n<images2D type=\"Vector\" allowHeterogeneousChildren=\"1\"/>\n</e57Root>\n");
+    if kind == 2 {
+        // a carriage return outside character data (the line ends of the whole document are normalised, not only those of text)
+        xml.push_str("</guid>\n<!-- a comment\r\nof two lines -->");
+    } else {
+        xml.push_str("</guid>");
+    }
+    xml.push_str("\n<versionMajor type=\"Integer\">1</versionMajor>\n<versionMinor type=\"Integer\">0</versionMinor>\n<data3D type=\"Vector\" allowHeterogeneousChildren=\"1\"/>\n<images2D type=\"Vector\" allowHeterogeneousChildren=\"1\"/>\n</e57Root>\n");
     xml_only_file(&xml)
 }
 
